@@ -13,6 +13,7 @@ package main
 
 import (
 	"fmt"
+	"os"
 	"runtime"
 	"sort"
 	"strings"
@@ -841,7 +842,11 @@ func (x *c14Run) partServer() {
 	rounds := c14GenRounds(e)
 	var sleepy, busy []c14Round
 	cfgs := map[string]bool{}
+	only := os.Getenv("VERIF_C14_KINDS") // debugging aid: comma-separated round kinds
 	for _, r := range rounds {
+		if only != "" && !strings.Contains(","+only+",", ","+r.Kind+",") {
+			continue
+		}
 		cfgs[r.Cfg.Name] = true
 		if r.Kind == "expiry" {
 			sleepy = append(sleepy, r)
